@@ -65,13 +65,48 @@ def install(handler, g):
             return torch.load(b, weights_only=False)
 
         steps = {"deepcopy": copy.deepcopy, "pickle": rt_pickle, "torch.save": rt_save}
-        q = p
-        trace = []
-        for h in hist:
-            q = steps[h](q)
-            trace.append((h, has_parameter_data(q), "__deepcopy__" in q.__dict__, "__reduce_ex__" in q.__dict__))
-        ok = has_parameter_data(q) and getattr(q, "mup_type", None) == "weight" and getattr(q, "mup_scaling_depth", None) == 7 and isinstance(q, nn.Parameter) and torch.equal(q.data, p.data)
-        return (not ok), f"history {hist}: (step, tagged, has __deepcopy__ hook, has __reduce_ex__ hook) = {trace}"
+        problems = []
+        for hist in (["deepcopy", "deepcopy"], ["deepcopy", "pickle"], ["pickle", "deepcopy"], ["deepcopy", "torch.save"], ["pickle", "pickle"]):
+            for freeze in (False, True):
+                p = uu.Parameter(torch.randn(3, 2), "weight", 7)
+                q = p
+                trace = []
+                for k, h in enumerate(hist):
+                    # between steps the current object is changed: values, dtype-preserving fill and the
+                    # trainable flag -- the next copy must be a copy of THIS object
+                    with torch.no_grad():
+                        q.fill_(float(k + 1))
+                    q.requires_grad_(not freeze)
+                    want_vals, want_rg = q.detach().clone(), q.requires_grad
+                    r = steps[h](q)
+                    ok = (
+                        has_parameter_data(r)
+                        and getattr(r, "mup_type", None) == "weight"
+                        and getattr(r, "mup_scaling_depth", None) == 7
+                        and isinstance(r, nn.Parameter)
+                        and torch.equal(r.detach(), want_vals)
+                        and r.requires_grad == want_rg
+                        and r.data_ptr() != q.data_ptr()
+                    )
+                    trace.append((h, ok))
+                    if not ok:
+                        problems.append(f"history {hist} (frozen={freeze}) step {k} ({h}): tagged={has_parameter_data(r)} values_equal={torch.equal(r.detach(), want_vals)} requires_grad={r.requires_grad} (source {want_rg})")
+                        break
+                    q = r
+        return bool(problems), "; ".join(problems[:3]) or "tags, values and trainable flag survive every 2-step history"
+
+    def replay_depth(rj):
+        from collections import OrderedDict
+
+        import unit_scaling as uu
+
+        bad = []
+        for name, build in (("positional", lambda: uu.DepthSequential(uu.Linear(2, 2), uu.Linear(2, 2), uu.Linear(2, 2))), ("OrderedDict", lambda: uu.DepthSequential(OrderedDict(a=uu.Linear(2, 2), b=uu.Linear(2, 2), c=uu.Linear(2, 2)))), ("DepthModuleList", lambda: uu.DepthModuleList([uu.Linear(2, 2), uu.Linear(2, 2), uu.Linear(2, 2)])), ("TransformerStack", lambda: uu.TransformerStack(layers=3, hidden_size=4, heads=2, is_causal=True))):
+            m = build()
+            depths = {p.mup_scaling_depth for p in m.parameters()}
+            if depths != {len(m)}:
+                bad.append(f"{name}: len(container)={len(m)} but recorded depths {sorted(map(str, depths))}")
+        return bool(bad), "; ".join(bad) or "every parameter records depth == len(container)"
 
     def replay_c15(rj):
         import ast
@@ -112,5 +147,6 @@ def install(handler, g):
         return False, "no concrete replay rule; see the verifier output in the replay file"
 
     handler(lambda rj: rj["job"].startswith("c15:"))(replay_c15)
+    handler(lambda rj: rj["job"].startswith("mod:") and ("Depth" in rj["job"] or "depth" in rj["obligation"]))(replay_depth)
     handler(lambda rj: rj["job"].startswith("mod:"))(replay_module)
     handler(lambda rj: rj["job"].startswith("c09:"))(replay_parameter)
